@@ -369,8 +369,10 @@ impl StoryState {
             list.origins.borrow_mut().clear();
 
             for name in &origin_names {
-                let def = self.list_definitions.get_list_definition(name).unwrap();
-                if !list.origins.borrow().iter().any(|e| std::ptr::eq(e, def)) {
+                // An origin name that matches no LIST declaration is skipped instead of panicking
+                if let Some(def) = self.list_definitions.get_list_definition(name)
+                    && !list.origins.borrow().iter().any(|e| std::ptr::eq(e, def))
+                {
                     list.origins.borrow_mut().push(def.clone());
                 }
             }
